@@ -2998,6 +2998,15 @@ coap_handle_request_put_block(coap_context_t *context,
   lg_srcv->last_mid = pdu->mid;
   lg_srcv->last_type = pdu->type;
 
+  if (!block.bert && block.szx > lg_srcv->szx) {
+    /*
+     * Block is larger than the size that was forced down for this body:
+     * the peer continues numbering in units of the smaller size, so track
+     * what is covered by this block in those units.
+     */
+    block.num <<= (block.szx - lg_srcv->szx);
+    block.szx = lg_srcv->szx;
+  }
   chunk = (size_t)1 << (block.szx + 4);
   update_data = 0;
   saved_num = block.num;
